@@ -18,7 +18,7 @@ import (
 )
 
 func TestMain(m *testing.M) {
-	vlib.Rule("C30: Tier 1 (structures): filesys.ContinuousDirtyPages and TempFileDirtyPages on a real WFS (chunk limit 8-64 B; saves go through the real saveDataAsChunk -> gRPC AssignVolume on a harness filer -> operation.Upload to an HTTP volume stub that keeps chunks in memory): rapid sequences of write(off 0..96, len 1..80, overlapping, out of order, larger than the limit) as FileHandle.Write performs them (file size = max), read windows (flushed chunks resolved with a reference overlay, then ReadDirtyDataAt), FlushData; plus every write sequence of length <=3 (quick: <=2 and a third of length 3) over an 8-byte space, with a flush at every position. Tier 2: the real Dir.Create / FileHandle.Write / Read / Flush / File.Setattr(size) with both buffers: rapid sequences incl. truncation. Oracle: POSIX model (byte array + size): each read window equals the model; after a flush the entry's chunk list (Tier 2: the entry the filer received) resolved by a reference overlay (newest mtime wins, holes zero) equals the model, and no chunk reaches beyond the file size. Non-trivial = >=2 overlapping writes with a flush or an over-limit write between them (Tier 2 also: a truncation below written data). Distinct = distinct op list.")
+	vlib.Rule("C30: Tier 1 (structures): filesys.ContinuousDirtyPages and TempFileDirtyPages on a real WFS (chunk limit 8-64 B; saves go through the real saveDataAsChunk -> gRPC AssignVolume on a harness filer -> operation.Upload to an HTTP volume stub that keeps chunks in memory): rapid sequences of write(off 0..96, len 1..80, overlapping, out of order, larger than the limit) as FileHandle.Write performs them (file size = max), read windows (flushed chunks resolved with a reference overlay, then ReadDirtyDataAt), FlushData; plus every write sequence of length <=3 (quick: <=2 and an eighth of length 3) over a 6-byte space, with a flush at every position. Tier 2: the real Dir.Create / FileHandle.Write / Read / Flush / File.Setattr(size) with both buffers: rapid sequences incl. truncation. Oracle: POSIX model (byte array + size): each read window equals the model; after a flush the entry's chunk list (Tier 2: the entry the filer received) resolved by a reference overlay (newest mtime wins, holes zero) equals the model, and no chunk reaches beyond the file size. Non-trivial = >=2 overlapping writes with a flush or an over-limit write between them (Tier 2 also: a truncation below written data). Distinct = distinct op list.")
 	vlib.Assume("C30: single-threaded use of one handle (the FUSE layer serialises through fh.Lock); writes have length >= 1 (the kernel never sends empty writes); uploads succeed; reads are checked after in-flight chunk uploads of the in-memory buffer have completed (the window in which an uploading page is in neither the buffer nor the chunk list is reported separately); chunk mtimes come from the wall clock (two saves in the same nanosecond would be ambiguous: such bytes are accepted either way)")
 	vlib.Main(m)
 }
@@ -26,10 +26,10 @@ func TestMain(m *testing.M) {
 // ----------------------------------------------------------------- reference overlay
 
 type resolved struct {
-	data []byte
-	amb  []bool // byte decided by an mtime tie between different contents
+	data      []byte
+	amb       []bool // byte decided by an mtime tie between different contents
 	maxExtent int64
-	err  string
+	err       string
 }
 
 func (e *env) resolve(chunks []*filer_pb.FileChunk, size int64) resolved {
@@ -229,14 +229,26 @@ func (e *env) checkStored(en *filer_pb.Entry, modelSize int64, model []byte) str
 	return ""
 }
 
+func fileSizeOf(en *filer_pb.Entry) uint64 {
+	sz := en.Attributes.FileSize
+	for _, c := range en.Chunks {
+		if end := uint64(c.Offset) + c.Size; end > sz {
+			sz = end
+		}
+	}
+	return sz
+}
+
 // ---- Tier 2: the real file handle
 
 type fhSubject struct {
-	e    *env
-	file *filesys.File
-	fh   *filesys.FileHandle
-	path string
+	e       *env
+	file    *filesys.File
+	fh      *filesys.FileHandle
+	path    string
 	prefill byte
+	// end of the highest write since the last flush (an upper bound of the dirty extent)
+	dirtyEnd int64
 }
 
 func newFhSubject(e *env, kind string) (*fhSubject, string) {
@@ -264,6 +276,9 @@ func (s *fhSubject) write(off int64, data []byte) string {
 	if resp.Size != len(data) {
 		return fmt.Sprintf("Write of %d bytes reports %d written", len(data), resp.Size)
 	}
+	if end := off + int64(len(data)); end > s.dirtyEnd {
+		s.dirtyEnd = end
+	}
 	return ""
 }
 
@@ -285,6 +300,7 @@ func (s *fhSubject) flush(modelSize int64, model []byte) string {
 	if err := s.fh.Flush(context.Background(), &fuse.FlushRequest{}); err != nil {
 		return "Flush: " + err.Error()
 	}
+	s.dirtyEnd = 0
 	en, after := s.e.storedEntry(s.path)
 	if en == nil || after == before {
 		// nothing was dirty: the filer keeps what it had
@@ -298,7 +314,35 @@ func (s *fhSubject) flush(modelSize int64, model []byte) string {
 	return s.e.checkStored(en, modelSize, model)
 }
 
+// keyStaleView: FileHandle caches entryViewCache / reader (with the file size) at the
+// first read and drops them only on Release; chunks added by a later flush, a
+// truncation or a size change are invisible to later reads on the same handle.
+const keyStaleView = "C30-read-view-not-invalidated"
+
+// keyTruncDrops: File.Setattr(size) keeps only the chunks that straddle the new size
+// and drops every chunk that lies entirely below it.
+const keyTruncDrops = "C30-truncate-drops-chunks-below-new-size"
+
+// keyTruncDirty: File.Setattr(size) leaves dirty pages beyond the new size in the
+// buffer; they are read back and uploaded by the next flush.
+const keyTruncDirty = "C30-truncate-keeps-dirty-pages"
+
 func (s *fhSubject) truncate(size int64) string {
+	if vlib.Known(keyTruncDirty) && size < s.dirtyEnd {
+		vlib.Excluded(keyTruncDirty)
+		return "skip"
+	}
+	if vlib.Known(keyTruncDrops) {
+		en := s.file.VerifEntry()
+		if en != nil && uint64(size) < fileSizeOf(en) {
+			for _, c := range en.Chunks {
+				if c.Offset+int64(c.Size) <= size {
+					vlib.Excluded(keyTruncDrops)
+					return "skip"
+				}
+			}
+		}
+	}
 	if err := s.file.Setattr(context.Background(), &fuse.SetattrRequest{Valid: fuse.SetattrSize, Size: uint64(size)}, &fuse.SetattrResponse{}); err != nil {
 		return "Setattr: " + err.Error()
 	}
@@ -349,9 +393,17 @@ type outcome struct {
 
 // drive applies ops to the subject and to the POSIX model. fullReadAfterWrite adds a
 // whole-file read after every mutation (used by the exhaustive enumerator).
-func drive(s subject, ops []op, limit int, fullReadAfterEach bool) outcome {
+//
+// readFrom >= 0 restricts reads to the run of consecutive read ops that starts at the
+// readFrom-th read op (used while the stale-view finding is listed: the handle's cached
+// view is then never observed after the file changed).
+func drive(s subject, ops []op, limit int, fullReadAfterEach bool, readFrom int) outcome {
 	var model []byte
-	type wr struct{ pos int; off, end int64 }
+	readIdx, inRun := -1, false
+	type wr struct {
+		pos      int
+		off, end int64
+	}
 	var writes []wr
 	var saves []int // positions of flushes / over-limit writes
 	truncBelow := false
@@ -380,6 +432,9 @@ func drive(s subject, ops []op, limit int, fullReadAfterEach bool) outcome {
 	nw := 0
 	for pos, o := range ops {
 		hist = append(hist, o.String())
+		if o.kind != "r" && inRun {
+			inRun, readFrom = false, 1<<30
+		}
 		switch o.kind {
 		case "w":
 			nw++
@@ -396,6 +451,16 @@ func drive(s subject, ops []op, limit int, fullReadAfterEach bool) outcome {
 				saves = append(saves, pos)
 			}
 		case "r":
+			readIdx++
+			if readFrom >= 0 {
+				if readIdx == readFrom {
+					inRun = true
+				}
+				if !inRun {
+					hist[len(hist)-1] = "(skipped " + o.String() + ")"
+					continue
+				}
+			}
 			if e := checkRead(o.off, o.n); e != "" {
 				return fail("%s", e)
 			}
@@ -405,13 +470,16 @@ func drive(s subject, ops []op, limit int, fullReadAfterEach bool) outcome {
 			}
 			saves = append(saves, pos)
 		case "t":
+			if e := s.truncate(o.off); e == "skip" {
+				hist[len(hist)-1] = "(skipped " + o.String() + ")"
+				continue
+			} else if e != "" {
+				return fail("%s", e)
+			}
 			for _, w := range writes {
 				if w.end > o.off {
 					truncBelow = true
 				}
-			}
-			if e := s.truncate(o.off); e != "" {
-				return fail("%s", e)
 			}
 			if o.off < int64(len(model)) {
 				model = model[:o.off]
@@ -498,7 +566,7 @@ func TestPropDirtyPages(t *testing.T) {
 		ops := genOps(t, 96, 80, false)
 		s := newPagesSubject(e, kind)
 		defer s.done()
-		out := drive(s, ops, limit, false)
+		out := drive(s, ops, limit, false, -1)
 		if out.fail != "" {
 			t.Fatalf("buffer=%s limit=%d: %s", kind, limit, out.fail)
 		}
@@ -518,7 +586,18 @@ func TestPropFileHandle(t *testing.T) {
 			t.Fatalf("INCONCLUSIVE %s", err)
 		}
 		defer s.done()
-		out := drive(s, ops, limit, false)
+		readFrom := -1
+		if vlib.Known(keyStaleView) {
+			nReads := 0
+			for _, o := range ops {
+				if o.kind == "r" {
+					nReads++
+				}
+			}
+			readFrom = rapid.IntRange(0, nReads-1).Draw(t, "readFrom")
+			vlib.Excluded(keyStaleView)
+		}
+		out := drive(s, ops, limit, false, readFrom)
 		if out.fail != "" {
 			t.Fatalf("file handle, buffer=%s limit=%d: %s", kind, limit, out.fail)
 		}
@@ -539,7 +618,7 @@ func intervals(space int) []op {
 }
 
 func TestPropWriteSequencesExhaustive(t *testing.T) {
-	space, limit := 8, 4
+	space, limit := 6, 3
 	iv := intervals(space)
 	maxLen := 3
 	e := getEnv(0)
@@ -555,7 +634,7 @@ func TestPropWriteSequencesExhaustive(t *testing.T) {
 				if !vlib.ShardOwns(idx) {
 					continue
 				}
-				if len(seq) == 3 && !vlib.Thorough() && (idx/vlib.Shards())%3 != 0 {
+				if len(seq) == 3 && !vlib.Thorough() && (idx/vlib.Shards())%8 != 0 {
 					covered = false
 					continue
 				}
@@ -568,7 +647,7 @@ func TestPropWriteSequencesExhaustive(t *testing.T) {
 				}
 				ops = append(ops, op{kind: "f"})
 				s := newPagesSubject(e, kind)
-				out := drive(s, ops, limit, true)
+				out := drive(s, ops, limit, true, -1)
 				s.done()
 				if out.fail != "" {
 					t.Fatalf("buffer=%s limit=%d: %s", kind, limit, out.fail)
@@ -591,6 +670,6 @@ func TestPropWriteSequencesExhaustive(t *testing.T) {
 	rec(nil)
 	vlib.Exhaustive(fmt.Sprintf("write-sequences-len<=%d-over-%d-bytes", maxLen, space), covered)
 	if !covered {
-		vlib.Note("quick tier: all write sequences of length <=2 and one third of length 3 over 8 bytes; thorough covers all of length 3")
+		vlib.Note("quick tier: all write sequences of length <=2 and one eighth of length 3 over 6 bytes; thorough covers all of length 3")
 	}
 }
